@@ -50,12 +50,89 @@ def apply(patch):
     return r.returncode == 0
 
 
+def run_case_in(wt, case):
+    """one case in a scratch worktree of /repo (parallel mode): the checks read that tree through CVA_REPO and write
+    their evidence to a throw-away directory"""
+    name, patch, exp = case
+    sh("git -C %s checkout -q -- ." % wt)
+    if patch and sh("git -C %s apply %s" % (wt, patch)).returncode != 0:
+        return name, exp, None
+    ids = ALL if exp == "SILENT" else [exp]
+    env = dict(os.environ, CVA_REPO=wt, CVA_EVIDENCE_DIR=wt + ".evidence", CVA_CACHE_KEEP="80")
+    res = {}
+    for i in ids:
+        r = sh("cd %s && ./check %s" % (V, i), env=env)
+        nv = sum(1 for l in r.stdout.splitlines() if l.startswith("VIOLATION"))
+        res[i] = (r.returncode, nv, [])
+    sh("git -C %s checkout -q -- ." % wt)
+    return name, exp, res
+
+
+def verdict(name, exp, res):
+    """-> (line, bad)"""
+    if res is None:
+        return "%-40s PATCH-DOES-NOT-APPLY" % name, 1
+    if exp == "SILENT":
+        noisy = {i: r for i, r in res.items() if r[0] != 0 or r[1]}
+        if noisy:
+            return "%-40s FALSE-ALARM %s" % (name, " ".join("%s(%d)" % (i, r[1]) for i, r in sorted(noisy.items()))), 1
+        return "%-40s silent on %d checks" % (name, len(res)), 0
+    rc, nv, _ = res[exp]
+    if rc == 1 and nv > 0:
+        return "%-40s caught by %s (%d)" % (name, exp, nv), 0
+    return "%-40s MISSED by %s (exit %d, %d violations)" % (name, exp, rc, nv), 1
+
+
+def run_parallel(cases, jobs):
+    import concurrent.futures, shutil, tempfile
+    base = tempfile.mkdtemp(prefix="cva-selftest-")
+    wts = []
+    for k in range(jobs):
+        wt = os.path.join(base, "w%d" % k)
+        if sh("git -C %s worktree add --detach %s HEAD -q" % (REPO, wt)).returncode != 0:
+            print("cannot create scratch worktree", wt)
+            return None
+        os.makedirs(wt + ".evidence", exist_ok=True)
+        wts.append(wt)
+    import queue
+    free = queue.Queue()
+    for w in wts:
+        free.put(w)
+
+    def work(case):
+        w = free.get()
+        try:
+            return run_case_in(w, case)
+        finally:
+            free.put(w)
+    out = {}
+    try:
+        # long cases (all twenty checks) first
+        order = sorted(cases, key=lambda c: 0 if c[2] == "SILENT" else 1)
+        with concurrent.futures.ThreadPoolExecutor(max_workers=jobs) as ex:
+            for name, exp, res in ex.map(work, order):
+                line, b = verdict(name, exp, res)
+                print(line, flush=True)
+                out[name] = (line, b)
+    finally:
+        for w in wts:
+            sh("git -C %s worktree remove --force %s" % (REPO, w))
+        shutil.rmtree(base, ignore_errors=True)
+        sh("git -C %s worktree prune" % REPO)
+    return out
+
+
 def main():
     args = sys.argv[1:]
     only = None
     if "--only" in args:
         i = args.index("--only")
         only = args[i + 1]
+        del args[i:i + 2]
+    jobs = 1
+    if "--jobs" in args:
+        i = args.index("--jobs")
+        jobs = int(args[i + 1])
         del args[i:i + 2]
     subs = args
     cases = []
@@ -92,6 +169,16 @@ def main():
     bad = 0
     log = []
     t0 = time.time()
+    if jobs > 1:
+        out = run_parallel(cases, jobs)
+        if out is None:
+            return 2
+        for name, patch, exp in cases:
+            line, b = out[name]
+            log.append(line)
+            bad += b
+        cases_done = cases
+        cases = []
     for name, patch, exp in cases:
         if patch and not apply(patch):
             line = "%-40s PATCH-DOES-NOT-APPLY" % name
@@ -117,6 +204,8 @@ def main():
         print(line, flush=True)
         log.append(line)
     clean_repo()
+    if jobs > 1:
+        cases = cases_done
     log.append("cases=%d bad=%d seconds=%d" % (len(cases), bad, time.time() - t0))
     print(log[-1])
     if not subs and only is None:
